@@ -15,6 +15,7 @@ fn main() {
 fn dispatch(args: &common::Args) {
     match args.id.as_str() {
         "C01" => props::c01::main(args),
+        "C20" => props::c20::main(args),
         other => common::machinery_failure(&format!("unknown property id {}", other)),
     }
 }
